@@ -308,6 +308,37 @@ def sc_reconnect():
     return p
 
 
+def sc_close_during_reconnect_wait():
+    """the application's close() from another thread while the built-in loop waits for the next attempt: the run ends with no
+    further connection attempt (C15, last sentence)."""
+    import websocket
+    peer = Peer([[("sleep", 0.05), ("eof",)], [("sleep", 0.3)], [("sleep", 0.3)]])
+    trace, out = [], []
+    app = websocket.WebSocketApp(f"ws://127.0.0.1:{peer.port}/", on_open=lambda a: trace.append("on_open"),
+                                 on_error=lambda a, e: trace.append("on_error"), on_close=lambda a, c, r: trace.append("on_close"),
+                                 on_reconnect=lambda a: trace.append("on_reconnect"))
+    th = threading.Thread(target=lambda: out.append(app.run_forever(reconnect=1)), daemon=True)
+    th.start()
+    try:
+        t_end = time.time() + 3.0 * PATIENCE[0]
+        while "on_error" not in trace and time.time() < t_end:   # the connection is lost, the loop starts its 1 s pause
+            time.sleep(0.02)
+        time.sleep(0.2)
+        app.close()
+        th.join(4.0 * PATIENCE[0])
+        time.sleep(0.3)
+        p = _expect("close-during-reconnect-wait", len(peer.accept_times), 1, "connection attempts (none after close())")
+        if "on_reconnect" in trace:
+            p.append(f"close-during-reconnect-wait: reconnected after close(): {trace}")
+        if th.is_alive():
+            p.append("close-during-reconnect-wait: run_forever did not return")
+        p += _expect("close-during-reconnect-wait", trace.count("on_close"), 1, "on_close calls")
+        return p
+    finally:
+        app.keep_running = False
+        peer.close()
+
+
 def sc_close_no_reconnect():
     r = run_app([[("send", CLOSE_BYE), ("until_close", 0.5)]], reconnect=0.1, timeout=3.0)
     time.sleep(0.3)
@@ -362,12 +393,13 @@ SCENARIOS = dict(detect_window=sc_detect_window, traffic=sc_traffic, eof=sc_eof,
                  close_in_message=sc_close_in_message, protocol_error=sc_protocol_error, second_run=sc_second_run,
                  close_empty_body=sc_close_empty_body, reconnect=sc_reconnect, close_no_reconnect=sc_close_no_reconnect, ping=sc_ping,
                  ping_timeout=sc_ping_timeout, interrupt_in_callback=sc_interrupt_in_callback,
-                 interrupt_in_on_close=sc_interrupt_in_on_close)
+                 interrupt_in_on_close=sc_interrupt_in_on_close,
+                 close_during_reconnect_wait=sc_close_during_reconnect_wait)
 BY_PROPERTY = {
     "C13": ["traffic", "callback_raises", "close_in_message"],
     "C14": ["traffic", "eof", "close_in_open", "close_in_message", "protocol_error", "second_run", "close_empty_body", "callback_raises",
             "interrupt_in_callback", "interrupt_in_on_close"],
-    "C15": ["reconnect", "close_no_reconnect", "eof"],
+    "C15": ["reconnect", "close_no_reconnect", "eof", "close_during_reconnect_wait"],
     "C16": ["ping", "ping_timeout"],
 }
 
